@@ -5,6 +5,7 @@ package flushable
 // Machine-checked contracts for /verif (read as text by the VC generator; no code).
 //
 // ghost state (declared first; meaning given where it is used)
+//@ ghost nOnDropF int
 //@ ghost gInitN int
 //@ ghost gInitRecv *LazyFlushable
 //@ ghost gInitR0 kvdb.Store
@@ -47,7 +48,6 @@ package flushable
 //@   ensures  [set] ovHas(w.flushableReader.modified, key) && !ovDel(w.flushableReader.modified, key) && arrfresh(ovVal(w.flushableReader.modified, key), old(_alloc)) && len(ovVal(w.flushableReader.modified, key)) == len(value) && forall(i, 0, len(value), ovVal(w.flushableReader.modified, key)[i] == value[i])
 //@   ensures  [others] forall(k string, k != strof(key) ==> tHas[w.flushableReader.modified][k] == old(tHas[w.flushableReader.modified][k]) && tVal[w.flushableReader.modified][k] == old(tVal[w.flushableReader.modified][k]))
 //@   ensures  [count] tN[w.flushableReader.modified] == old(tN[w.flushableReader.modified]) + ite(old(ovHas(w.flushableReader.modified, key)), 0, 1)
-//@   ensures  [trees] forall(n *redblacktree.Node, old(nOwner[n]) != w.flushableReader.modified && old(nOwner[n]) != nil ==> nOwner[n] == old(nOwner[n]) && nIdx[n] == old(nIdx[n]) && n.Key == old(n.Key) && n.Value == old(n.Value))
 //@ func (*Flushable).delete
 //@   requires finv(w)
 //@   modifies tHas[w.flushableReader.modified], tVal[w.flushableReader.modified], tN[w.flushableReader.modified], tKey[w.flushableReader.modified], tNode[w.flushableReader.modified], nOwner[*], nIdx[*], all(redblacktree.Node).Key, all(redblacktree.Node).Value, deref(w.sizeEstimation)
@@ -209,11 +209,10 @@ package flushable
 //@   ensures  [written] w.flushableReader.modified != nil && result == nil ==> gBatchWriteN >= old(gBatchWriteN) + 1 && gBatchWriteRecv == gBatcherNewBatchR0 && gBatchWriteR0 == nil
 //@   ensures  [emptied] w.flushableReader.modified != nil && result == nil ==> tN[w.flushableReader.modified] == 0 && forall(k string, !tHas[w.flushableReader.modified][k]) && deref(w.sizeEstimation) == 0
 //@   ensures  [kept] w.flushableReader.modified != nil && result != nil && !(gBatchWriteN >= old(gBatchWriteN) + 1 && gWrOpN == old(gWrOpN) + old(tN[w.flushableReader.modified])) ==> tN[w.flushableReader.modified] == old(tN[w.flushableReader.modified]) && forall(k string, tHas[w.flushableReader.modified][k] == old(tHas[w.flushableReader.modified][k]) && tVal[w.flushableReader.modified][k] == old(tVal[w.flushableReader.modified][k]))
-//@   loop 1 modifies it.node, it.position, gBatchValueSizeN, gBatchValueSizeRecv, gBatchValueSizeR0, gBatchWriteN, gBatchWriteRecv, gBatchWriteR0, gBatchResetN, gBatchResetRecv, gKeyValueWriterPutN, gKeyValueWriterPutRecv, gKeyValueWriterPutA0, gKeyValueWriterPutA1, gKeyValueWriterPutR0, gKeyValueWriterDeleteN, gKeyValueWriterDeleteRecv, gKeyValueWriterDeleteA0, gKeyValueWriterDeleteR0, gWrOpN, gWrOpKind[*], gWrOpRecv[*], gWrOpKey[*], gWrOpVal[*], gWrOpErr[*]
-//@   loop 1 invariant it.tree == w.flushableReader.modified && (it.position == 0 || it.position == 1) && (it.position == 1 ==> it.node != nil && nOwner[it.node] == it.tree && 0 <= nIdx[it.node] && nIdx[it.node] < tN[it.tree] && tNode[it.tree][nIdx[it.node]] == it.node)
+//@   loop 1 modifies it.node, it.position, itIdx[it], gBatchValueSizeN, gBatchValueSizeRecv, gBatchValueSizeR0, gBatchWriteN, gBatchWriteRecv, gBatchWriteR0, gBatchResetN, gBatchResetRecv, gKeyValueWriterPutN, gKeyValueWriterPutRecv, gKeyValueWriterPutA0, gKeyValueWriterPutA1, gKeyValueWriterPutR0, gKeyValueWriterDeleteN, gKeyValueWriterDeleteRecv, gKeyValueWriterDeleteA0, gKeyValueWriterDeleteR0, gWrOpN, gWrOpKind[*], gWrOpRecv[*], gWrOpKey[*], gWrOpVal[*], gWrOpErr[*]
+//@   loop 1 invariant it.tree == w.flushableReader.modified && (it.position == 0 || it.position == 1) && (it.position == 1 ==> 0 <= itIdx[it] && itIdx[it] < tN[it.tree])
 //@   loop 1 invariant gWrOpN == old(gWrOpN) + itCur(it) + 1 && gBatchWriteN >= old(gBatchWriteN) && gBatchResetN >= old(gBatchResetN)
 //@   loop 1 invariant forall(i, 0, itCur(it) + 1, opIs(old(gWrOpN) + i, tKey[it.tree][i], tVal[it.tree][tKey[it.tree][i]], batch))
-//@   loop 1 invariant forall(i, 0, itCur(it) + 1, !arrfresh(gWrOpKey[old(gWrOpN) + i], _alloc))
 //@
 //@ // ---- batches of the flushable store: a list of private copies; a nil value marks a deletion ----
 //@ func (*Flushable).NewBatch
@@ -255,3 +254,105 @@ package flushable
 //@   loop 1 invariant forall(k string, lastW(b.writes, _k, k) >= 0 ==> tHas[b.db.flushableReader.modified][k] && (tVal[b.db.flushableReader.modified][k] == nil) == (b.writes[lastW(b.writes, _k, k)].v == nil) &&
 //@              (tVal[b.db.flushableReader.modified][k] != nil ==> len(unbox(tVal[b.db.flushableReader.modified][k], "[]byte")) == len(b.writes[lastW(b.writes, _k, k)].v) && forall(i, 0, len(b.writes[lastW(b.writes, _k, k)].v), unbox(tVal[b.db.flushableReader.modified][k], "[]byte")[i] == b.writes[lastW(b.writes, _k, k)].v[i])))
 //@   loop 1 invariant forall(k string, lastW(b.writes, _k, k) < _k)
+//@
+//@ // Replay hands the operations to the writer in order (nil value: Delete) and stops at the first error
+//@ func (*cacheBatch).Replay
+//@   requires b != nil && w != nil
+//@   modifies gKeyValueWriterPutN, gKeyValueWriterPutRecv, gKeyValueWriterPutA0, gKeyValueWriterPutA1, gKeyValueWriterPutR0, gKeyValueWriterDeleteN, gKeyValueWriterDeleteRecv, gKeyValueWriterDeleteA0, gKeyValueWriterDeleteR0, gWrOpN, gWrOpKind[*], gWrOpRecv[*], gWrOpKey[*], gWrOpVal[*], gWrOpErr[*]
+//@   ensures  [all] result == nil ==> gWrOpN == old(gWrOpN) + len(b.writes)
+//@   ensures  [ops] gWrOpN >= old(gWrOpN) && gWrOpN <= old(gWrOpN) + len(b.writes) && forall(j, 0, gWrOpN - old(gWrOpN), gWrOpRecv[old(gWrOpN) + j] == w && gWrOpKey[old(gWrOpN) + j] == b.writes[j].k && ((b.writes[j].v == nil && gWrOpKind[old(gWrOpN) + j] == 2) || (b.writes[j].v != nil && gWrOpKind[old(gWrOpN) + j] == 1 && gWrOpVal[old(gWrOpN) + j] == b.writes[j].v)) && (result == nil || old(gWrOpN) + j < gWrOpN - 1 ==> gWrOpErr[old(gWrOpN) + j] == nil))
+//@   ensures  [stop] result != nil ==> gWrOpN > old(gWrOpN) && result == gWrOpErr[gWrOpN - 1]
+//@   loop 1 modifies gKeyValueWriterPutN, gKeyValueWriterPutRecv, gKeyValueWriterPutA0, gKeyValueWriterPutA1, gKeyValueWriterPutR0, gKeyValueWriterDeleteN, gKeyValueWriterDeleteRecv, gKeyValueWriterDeleteA0, gKeyValueWriterDeleteR0, gWrOpN, gWrOpKind[*], gWrOpRecv[*], gWrOpKey[*], gWrOpVal[*], gWrOpErr[*]
+//@   loop 1 invariant 0 <= _k && _k <= len(b.writes) && gWrOpN == old(gWrOpN) + _k
+//@   loop 1 invariant forall(j, 0, _k, gWrOpRecv[old(gWrOpN) + j] == w && gWrOpKey[old(gWrOpN) + j] == b.writes[j].k && gWrOpErr[old(gWrOpN) + j] == nil && ((b.writes[j].v == nil && gWrOpKind[old(gWrOpN) + j] == 2) || (b.writes[j].v != nil && gWrOpKind[old(gWrOpN) + j] == 1 && gWrOpVal[old(gWrOpN) + j] == b.writes[j].v)))
+//@
+//@ // ---- snapshots: a private copy of the overlay plus a snapshot of the underlying store ----
+//@ func (*Flushable).GetSnapshot
+//@   requires finv(w)
+//@   modifies gSnapshoterGetSnapshotN, gSnapshoterGetSnapshotRecv, gSnapshoterGetSnapshotR0, gSnapshoterGetSnapshotR1, tHas[*], tVal[*], tN[*], tKey[*], tNode[*], nOwner[*], nIdx[*], itIdx[*], all(redblacktree.Node).Key, all(redblacktree.Node).Value
+//@   ensures  [asked] gSnapshoterGetSnapshotN == old(gSnapshoterGetSnapshotN) + 1 && gSnapshoterGetSnapshotRecv == w.underlying
+//@   ensures  [failed] gSnapshoterGetSnapshotR1 != nil ==> result0 == nil && result1 == gSnapshoterGetSnapshotR1
+//@   ensures  [snap] gSnapshoterGetSnapshotR1 == nil ==> result1 == nil && typeis(result0, "*Snapshot") && unbox(result0, "*Snapshot").parentSnap == gSnapshoterGetSnapshotR0 && unbox(result0, "*Snapshot").flushableReader.underlying == gSnapshoterGetSnapshotR0 &&
+//@            fresh(unbox(result0, "*Snapshot").flushableReader.modified) && ovOK(unbox(result0, "*Snapshot").flushableReader.modified) &&
+//@            forall(k string, tHas[unbox(result0, "*Snapshot").flushableReader.modified][k] == tHas[w.flushableReader.modified][k] && (tHas[w.flushableReader.modified][k] ==> tVal[unbox(result0, "*Snapshot").flushableReader.modified][k] == tVal[w.flushableReader.modified][k]))
+//@   ensures  [same] finv(w) && tN[w.flushableReader.modified] == old(tN[w.flushableReader.modified]) && forall(k string, tHas[w.flushableReader.modified][k] == old(tHas[w.flushableReader.modified][k]) && tVal[w.flushableReader.modified][k] == old(tVal[w.flushableReader.modified][k]))
+//@   loop 1 modifies it.node, it.position, itIdx[it], tHas[modifiedCopy], tVal[modifiedCopy], tN[modifiedCopy], tKey[modifiedCopy], tNode[modifiedCopy], nOwner[*], nIdx[*], all(redblacktree.Node).Key, all(redblacktree.Node).Value
+//@   loop 1 invariant [a] it.tree == w.flushableReader.modified && modifiedCopy != w.flushableReader.modified && fresh(modifiedCopy) && (it.position == 0 || it.position == 1) && (it.position == 1 ==> 0 <= itIdx[it] && itIdx[it] < tN[it.tree])
+//@   loop 1 invariant [b] twf(modifiedCopy)
+//@   loop 1 invariant [c] ovOK(w.flushableReader.modified)
+//@   loop 1 hint assert itCur(it) == iterold(itCur(it)) + 1 && forall(i, 0, itCur(it), tKey[it.tree][i] != tKey[it.tree][itCur(it)])
+//@   loop 1 hint assert tHas[modifiedCopy][tKey[it.tree][itCur(it)]] && tVal[modifiedCopy][tKey[it.tree][itCur(it)]] == tVal[it.tree][tKey[it.tree][itCur(it)]] && itCur(it) == iterold(itCur(it)) + 1
+//@   loop 1 hint assert forall(i, 0, itCur(it), tHas[modifiedCopy][tKey[it.tree][i]] == iterold(tHas[modifiedCopy][tKey[it.tree][i]]) && tVal[modifiedCopy][tKey[it.tree][i]] == iterold(tVal[modifiedCopy][tKey[it.tree][i]]))
+//@   loop 1 invariant [copied] forall(i, 0, itCur(it) + 1, tHas[modifiedCopy][tKey[it.tree][i]] && tVal[modifiedCopy][tKey[it.tree][i]] == tVal[it.tree][tKey[it.tree][i]])
+//@   loop 1 invariant [only] forall(k string, tHas[modifiedCopy][k] ==> exists(i, 0, itCur(it) + 1, tKey[it.tree][i] == k))
+//@   loop 1 invariant [same] tN[w.flushableReader.modified] == old(tN[w.flushableReader.modified]) && forall(k string, tHas[w.flushableReader.modified][k] == old(tHas[w.flushableReader.modified][k]) && tVal[w.flushableReader.modified][k] == old(tVal[w.flushableReader.modified][k]))
+//@ func (*Snapshot).Release
+//@   requires s != nil && s.parentSnap != nil
+//@   modifies s.flushableReader.modified, gSnapshotReleaseN, gSnapshotReleaseRecv
+//@   ensures  s.flushableReader.modified == nil && gSnapshotReleaseN == old(gSnapshotReleaseN) + 1 && gSnapshotReleaseRecv == s.parentSnap
+//@
+//@ // ---- closing and dropping ----
+//@ func (*Flushable).Close
+//@   requires w != nil && w.underlying != nil && w.sizeEstimation != nil
+//@   modifies w.flushableReader.modified, tHas[w.flushableReader.modified], tVal[w.flushableReader.modified], tN[w.flushableReader.modified], tKey[w.flushableReader.modified], tNode[w.flushableReader.modified], deref(w.sizeEstimation), gCloserCloseN, gCloserCloseRecv, gCloserCloseR0
+//@   ensures  [twice] old(w.flushableReader.modified) == nil ==> result == errClosed && gCloserCloseN == old(gCloserCloseN)
+//@   ensures  [closed] old(w.flushableReader.modified) != nil ==> w.flushableReader.modified == nil && gCloserCloseN == old(gCloserCloseN) + 1 && gCloserCloseRecv == w.underlying && result == gCloserCloseR0
+//@ funcfield Flushable.onDrop
+//@   modifies nOnDropF
+//@   ghost nOnDropF = old(nOnDropF) + 1
+//@ func (*Flushable).Drop
+//@   requires w != nil
+//@   panics   w.flushableReader.modified != nil
+//@   modifies nOnDropF
+//@   ensures  nOnDropF == old(nOnDropF) + ite(w.onDrop != nil, 1, 0)
+//@ func (*Flushable).Stat
+//@   requires w != nil && w.underlying != nil
+//@   modifies gStaterStatN, gStaterStatRecv, gStaterStatA0, gStaterStatR0, gStaterStatR1
+//@   ensures  gStaterStatN == old(gStaterStatN) + 1 && gStaterStatRecv == w.underlying && gStaterStatA0 == property && result0 == gStaterStatR0 && result1 == gStaterStatR1
+//@ func (*Flushable).Compact
+//@   requires w != nil && w.underlying != nil
+//@   modifies gCompacterCompactN, gCompacterCompactRecv, gCompacterCompactA0, gCompacterCompactA1, gCompacterCompactR0
+//@   ensures  gCompacterCompactN == old(gCompacterCompactN) + 1 && gCompacterCompactRecv == w.underlying && gCompacterCompactA0 == start && gCompacterCompactA1 == limit && result == gCompacterCompactR0
+//@ func Wrap
+//@   panics   parent == nil
+//@   modifies gPend[*]
+//@   ensures  fresh(result) && finv(result) && tN[result.flushableReader.modified] == 0 && result.underlying == parent && result.flushableReader.underlying == parent
+//@
+//@ // ---- iteration ----
+//@ func castToPair
+//@   requires node != nil ==> typeis(node.Key, "string") && (node.Value == nil || typeis(node.Value, "[]byte"))
+//@   ensures  node == nil ==> key == nil && val == nil
+//@   ensures  node != nil ==> len(key) == len(unbox(node.Key, "string")) && forall(i, 0, len(key), key[i] == bytesof(unbox(node.Key, "string"), i)) && (node.Value == nil ==> val == nil) && (node.Value != nil ==> val == unbox(node.Value, "[]byte"))
+//@ func (*flushableIterator).Key
+//@   requires it != nil
+//@   ensures  result == it.key
+//@ func (*flushableIterator).Value
+//@   requires it != nil
+//@   ensures  result == it.val
+//@ func (*flushableIterator).Error
+//@   requires it != nil && it.parentIt != nil
+//@   modifies gIteratorErrorN, gIteratorErrorRecv, gIteratorErrorR0
+//@   ensures  gIteratorErrorN == old(gIteratorErrorN) + 1 && gIteratorErrorRecv == it.parentIt && result == gIteratorErrorR0
+//@ // init: the underlying iterator is advanced once; the overlay position is the first entry whose key is >= start
+//@ // (prefix followed by the start key), or the first entry when start is empty
+//@ func (*flushableIterator).init
+//@   requires it != nil && it.parentIt != nil && twf(it.tree) && nwf(it.tree)
+//@   modifies it.parentOk, it.treeNode, it.treeOk, gIteratorNextN, gIteratorNextRecv, gIteratorNextR0
+//@   ensures  gIteratorNextN == old(gIteratorNextN) + 1 && gIteratorNextRecv == it.parentIt && it.parentOk == gIteratorNextR0
+//@   ensures  it.treeOk == (it.treeNode != nil)
+//@   ensures  [first] len(it.start) == 0 ==> it.treeNode == ite(tN[it.tree] == 0, nil, tNode[it.tree][0])
+//@   ensures  [ceil] len(it.start) != 0 && it.treeOk ==> nOwner[it.treeNode] == it.tree && 0 <= nIdx[it.treeNode] && nIdx[it.treeNode] < tN[it.tree] && tNode[it.tree][nIdx[it.treeNode]] == it.treeNode && !slt(tKey[it.tree][nIdx[it.treeNode]], strof(it.start)) && forall(i, 0, nIdx[it.treeNode], slt(tKey[it.tree][i], strof(it.start)))
+//@   ensures  [none] len(it.start) != 0 && !it.treeOk ==> forall(i, 0, tN[it.tree], slt(tKey[it.tree][i], strof(it.start)))
+//@ // NewIterator: a closed reader yields an iterator that reports errClosed; otherwise the merged iterator over the
+//@ // overlay and ONE iterator of the underlying store opened with exactly (prefix, start); its own start position is
+//@ // prefix followed by start (in a buffer of its own)
+//@ func (*flushableReader).NewIterator
+//@   requires w != nil && w.underlying != nil && (w.modified != nil ==> twf(w.modified) && nwf(w.modified)) && len(prefix) + len(start) <= 4611686018427387904
+//@   modifies gIterateeNewIteratorN, gIterateeNewIteratorRecv, gIterateeNewIteratorA0, gIterateeNewIteratorA1, gIterateeNewIteratorR0, gIteratorNextN, gIteratorNextRecv, gIteratorNextR0
+//@   ensures  [closed] w.modified == nil ==> typeis(result, "*errIterator") && unbox(result, "*errIterator").err == errClosed && gIterateeNewIteratorN == old(gIterateeNewIteratorN)
+//@   ensures  [open] w.modified != nil ==> typeis(result, "*flushableIterator") && gIterateeNewIteratorN == old(gIterateeNewIteratorN) + 1 && gIterateeNewIteratorRecv == w.underlying && gIterateeNewIteratorA0 == prefix && gIterateeNewIteratorA1 == start &&
+//@            unbox(result, "*flushableIterator").parentIt == gIterateeNewIteratorR0 && unbox(result, "*flushableIterator").tree == w.modified && unbox(result, "*flushableIterator").prefix == prefix && isCat(unbox(result, "*flushableIterator").start, prefix, start) &&
+//@            unbox(result, "*flushableIterator").prevKey == nil && unbox(result, "*flushableIterator").key == nil && unbox(result, "*flushableIterator").treeOk == (unbox(result, "*flushableIterator").treeNode != nil)
+//@ func (*errIterator).Error
+//@   requires it != nil
+//@   ensures  result == it.err
